@@ -9,6 +9,7 @@ open CogentModel.SeqFormats CogentModel.Clustal
 
 /-- white space only (possibly empty): blanks, tabs, `\r`, ... -/
 def AllWs (s : Str) : Prop := ∀ c ∈ s, isSpaceStr c = true
+instance (s : Str) : Decidable (AllWs s) := by unfold AllWs; infer_instance
 
 /-- `l` is a sequence line carrying label `n` and residues `c`:
 * `plain`   — `n <ws1> c <ws2>` with `ws1` non-empty (blanks and/or tabs; trailing blanks, `\r` of a CRLF file);
